@@ -29,7 +29,10 @@ type Chain interface {
 	// GenesisTx returns a trust-root installation transaction (header_sync "syncGenesisHeader")
 	// witnessed by the current consensus operator. variant 0 = the chain's real trust root;
 	// variant 1 = a different, equally well-formed trust root (other keys / other header);
-	// variant 2 = the real trust root re-encoded/re-signed (same data).
+	// variant 2 = the real trust root re-encoded/re-signed (same data);
+	// variant 3 = a different, equally well-formed trust root at a DIFFERENT HEIGHT than the
+	// installed one (e.g. above the synced tip, or below the first root); drivers for routers
+	// where a height is meaningless may treat 3 like 1.
 	GenesisTx(variant int) *types.Transaction
 	// NextHeaders returns a transaction syncing the next k valid headers (relayer-signed),
 	// advancing the simulated chain. nil if the router has no separate header sync.
